@@ -13,9 +13,10 @@ import (
 )
 
 type runner struct {
-	c     *corr.Ctx
-	g     *gen
-	seeds []string
+	c       *corr.Ctx
+	g       *gen
+	seeds   []string
+	pending []textCase
 }
 
 // checkDesc: the round-trip clause on one generated description (and the re-marshal clause on
@@ -159,8 +160,10 @@ func Run(c *corr.Ctx) {
 			return
 		}
 		rn.runInput(in, "replay")
+		rn.flushTexts()
 		return
 	}
+	defer rn.flushTexts()
 	for i, in := range loadCorpus(corpusDir()) {
 		rn.runInput(in, fmt.Sprintf("corpus-%d", i))
 		c.Dist("corpus")
